@@ -165,7 +165,17 @@ def shape(stmts):
 
 
 def multigoto_bodies():
-    alphabet = [("if", cond_true(), ("goto", "a"), None), V("v", 1), U("v"), ("block", [V("v", 1)]), ("block", [U("v")])]
+    ifgoto = ("if", cond_true(), ("goto", "a"), None)
+    alphabet = [ifgoto, V("v", 1), U("v"), ("block", [V("v", 1)]), ("block", [U("v")])]
+    # ... and with one of the gotos inside a nested block that has zero to three locals of its own
+    nested = [("block", [ifgoto]), ("block", [V("w", 2), ifgoto]), ("block", [V("w", 2), V("u", 4), ifgoto]),
+              ("block", [V("w", 2), V("u", 4), V("t", 8), ifgoto, U("w")])]
+    for nb in nested:
+        for mid in ([V("v", 1)], [V("v", 1), U("v")], [V("w", 2), V("v", 1)], [("block", [V("w", 2)]), V("v", 1)]):
+            for second in (ifgoto, ("block", [ifgoto]), ("block", [V("w", 2), ifgoto])):
+                for tail in ([U("v")], [("block", [U("v")])], []):
+                    yield [nb] + list(mid) + [second, ("label", "a")] + list(tail)
+                    yield [second] + list(mid) + [nb, ("label", "a")] + list(tail)
     for k in range(1, 6):
         for combo in itertools.product(alphabet, repeat=k):
             if sum(1 for st in combo if st[0] == "if") < 2:
